@@ -65,13 +65,19 @@ TYPE_NAME = {"B": "BASIC", "R": "RT", "S": "SOO", "L": "LARGE"}
 
 # ---------------------------------------------------------------------------------------------------
 # alphabet
+def cname(t, i):
+    """name of community list i of type t: the index comes first, so that in name order (the order in which the list
+    generators walk the used lists) lists of different types alternate: C1B, C1L, C1R, C1S, C2B, ..."""
+    return "C%s%s" % (i, t)
+
+
 def all_conds():
     out = []
     for f, t in TYPE_OF.items():
         for op in ("has", "has_any"):
             for k in (1, 2, 3):
-                out.append(["set", f, op, ["C%s%d" % (t, i) for i in range(1, k + 1)]])
-        out.append(["set", f, "has_any", ["C%s1" % t, "C%sX" % t]])      # lists with different use_regex
+                out.append(["set", f, op, [cname(t, i) for i in range(1, k + 1)]])
+        out.append(["set", f, "has_any", [cname(t, 1), cname(t, "X")]])      # lists with different use_regex
     for op in ("has", "has_any"):
         for names in (["RD1"], ["RD1", "RD2"]):
             out.append(["set", "rd", op, names])
@@ -80,7 +86,7 @@ def all_conds():
             ["cmp", "interface", "==", "eth0"], ["cmp", "protocol", "==", "bgp"], ["cmp", "metric", "==", 10],
             ["cmp", "net_len", "==", 24], ["cmp", "net_len", "!=", 24], ["cmp", "family", "==", 4], ["cmp", "local_pref", "<", 100],
             ["aspf", "ASP1"], ["aspf", "ASP2"]]
-    for fn, a, b in (("match_v4", "PL4A", "PL4B"), ("match_v6", "PL6A", "PL6B")):
+    for fn, a, b in (("match_v4", "PLA4", "PLB4"), ("match_v6", "PLA6", "PLB6")):
         for names in ([a], [a, b]):
             for ol in OR_LONGER:
                 out.append(["pfx", fn, names, ol])
@@ -91,12 +97,12 @@ def all_conds():
 def all_acts():
     out = []
     for fam, t in TYPE_OF.items():
-        a, b = "C%s1" % t, "C%s2" % t
+        a, b = cname(t, 1), cname(t, 2)
         for calls in ([["add", [a]]], [["add", [a, b]]], [["remove", [a]]], [["remove", [a, b]]],
                       [["set", []]], [["set", [a]]], [["set", [a, b]]],
                       [["add", [a]], ["remove", [b]]], [["set", [a]], ["add", [b]]], [["set", [a]], ["remove", [b]]]):
             out.append([fam, calls])
-    a, b = "CR1", "CS1"
+    a, b = cname("R", 1), cname("S", 1)
     for calls in ([["add", [a]]], [["add", [b]]], [["add", [a, b]]], [["remove", [a]]], [["remove", [b]]],
                   [["set", []]], [["set", [a]]], [["set", [b]]], [["set", [a, b]]],
                   [["add", [a]], ["remove", [b]]], [["set", [a]], ["add", [b]]]):
@@ -230,15 +236,15 @@ def _entities(ev):
     comms = []
     for t in "BRSL":
         for i in (1, 2, 3):
-            comms.append(CommunityList("C%s%d" % (t, i), _members(t, i, rx, n), CommunityType[TYPE_NAME[t]],
+            comms.append(CommunityList(cname(t, i), _members(t, i, rx, n), CommunityType[TYPE_NAME[t]],
                                        CommunityLogic[lg], bool(rx)))
-        comms.append(CommunityList("C%sX" % t, _members(t, 9, 1 - rx, 1), CommunityType[TYPE_NAME[t]],
+        comms.append(CommunityList(cname(t, "X"), _members(t, 9, 1 - rx, 1), CommunityType[TYPE_NAME[t]],
                                    CommunityLogic[lg], not rx))
     plists = [
-        ip_prefix_list("PL4A", ["10.0.0.0/8"]),
-        ip_prefix_list("PL4B", ["10.1.0.0/16", IpPrefixListMember("10.2.0.0/16", (17, 24))], (None, 24)),
-        ip_prefix_list("PL6A", ["2001:db8::/32"]),
-        ip_prefix_list("PL6B", ["2001:db8:1::/48", "2001:db8:2::/48"], (48, 64)),
+        ip_prefix_list("PLA4", ["10.0.0.0/8"]),
+        ip_prefix_list("PLB4", ["10.1.0.0/16", IpPrefixListMember("10.2.0.0/16", (17, 24))], (None, 24)),
+        ip_prefix_list("PLA6", ["2001:db8::/32"]),
+        ip_prefix_list("PLB6", ["2001:db8:1::/48", "2001:db8:2::/48"], (48, 64)),
     ]
     asps = [AsPathFilter("ASP1", ["123"]), AsPathFilter("ASP2", [".*", "456", "789"])]
     rds = [RDFilter("RD1", 1, ["100:1"]), RDFilter("RD2", 2, ["100:2", "200:2"])]
